@@ -289,7 +289,7 @@ func toolLoadNotebook(args []string) int {
 	} else {
 		es := []map[string]interface{}{}
 		for _, c := range db.Commands {
-			es = append(es, cmdJSON(c))
+			es = append(es, awCmdJSON(c))
 		}
 		res["ok"], res["entries"] = true, es
 	}
@@ -298,7 +298,7 @@ func toolLoadNotebook(args []string) int {
 	return 0
 }
 
-func hexList(xs []string) []string {
+func awHexList(xs []string) []string {
 	o := make([]string, len(xs))
 	for i, x := range xs {
 		o[i] = Hx(x)
@@ -306,9 +306,9 @@ func hexList(xs []string) []string {
 	return o
 }
 
-func cmdJSON(c database.Command) map[string]interface{} {
-	return map[string]interface{}{"command": Hx(c.Command), "description": Hx(c.Description), "keywords": hexList(c.Keywords),
-		"tags": hexList(c.Tags), "niche": Hx(c.Niche), "platform": hexList(c.Platform), "pipeline": c.Pipeline}
+func awCmdJSON(c database.Command) map[string]interface{} {
+	return map[string]interface{}{"command": Hx(c.Command), "description": Hx(c.Description), "keywords": awHexList(c.Keywords),
+		"tags": awHexList(c.Tags), "niche": Hx(c.Niche), "platform": awHexList(c.Platform), "pipeline": c.Pipeline}
 }
 
 // tool loadhist <path>: history.Load; prints one JSON object (queries hex-encoded).
